@@ -260,10 +260,18 @@ def _cls(L, D, H, inc):
 def run(ctx):
     install()
     rng = ctx.rng
+    from rv.props import concurrent_jobs
+
+    concurrent_jobs.run_some(ctx, "C14")        # the same calls from a thread pool (rv/core/threads.py)
+    ctx.must_monitors.append("concurrent_calls")
     ctx.rule = ("(clip start, end, duration, hop, include_incomplete); exhaustive dyadic grid + random decimals; "
                 "non-trivial = at least two segments expected; distinct = distinct parameter tuple")
     ctx.assumptions += ["finite parameters", "random decimal cases with a window boundary within 1e-12 (relative) of the clip end are don't-care for the count"]
     ctx.must_monitors += ["segment_clip.stream", "segment_clip.segments", "id_determinism"]
+    if ctx.shard == 0:
+        for start, n_windows, duration, hop, inc in [(0.0, 2 ** 20 + 77, 2.0 ** -6, 2.0 ** -7, False)] + ([(16.0, 1200003, 2.0 ** -5, 2.0 ** -5, True)] if ctx.thorough else []):
+            ctx.case(("many_windows", "inc" if inc else "complete"), {"kind": "many_windows", "start": start, "n_windows": n_windows, "duration": duration, "hop": hop, "inc": inc})
+            judge_many_windows(ctx, start, n_windows, duration, hop, inc)
     ctx.must_reach += ["operations.py::segment_clip"]
 
     # directed: rejections + the witnesses of the floor(duration/hop) defect
@@ -336,8 +344,38 @@ def run(ctx):
         judge(ctx, start, end, d, h, inc, ids=rng.random() < 0.05 or style == "submilli")
 
 
+def judge_many_windows(ctx, start, n_windows, duration, hop, inc):
+    """'For every clip length and hop': one call that yields more than a million windows (hours of audio at a hop of
+    milliseconds), consumed as a stream through the un-instrumented function and judged window by window against the
+    hop lattice (all values dyadic: exact)."""
+    from soundevent import operations as OP
+
+    end = start + (n_windows - 1) * hop + duration
+    spec = {"kind": "many_windows", "start": start, "n_windows": n_windows, "duration": duration, "hop": hop, "inc": inc}
+    clip = _clip(start, end)
+    k, bad = 0, None
+    try:
+        for c in instrument.original(OP.segment_clip)(clip, duration=duration, hop=hop, include_incomplete=inc):
+            if bad is None and (c.start_time != start + k * hop or c.end_time != min(start + k * hop + duration, end) or c.recording is not clip.recording and c.recording != clip.recording):
+                bad = (k, c.start_time, c.end_time)
+            k += 1
+    except Exception as e:
+        ctx.violate_exc("raises", f"raises:{type(e).__name__}", e, spec=spec)
+        return
+    ctx.mon("segment_clip.many_windows")
+    # complete windows: n_windows; with include_incomplete the trailing windows that start before the end are added
+    want = n_windows if not inc else n_windows + (math.ceil((end - start) / hop) - n_windows)
+    if bad is not None:
+        ctx.violate("lattice", "lattice:many_windows", observed=list(bad), expected=[bad[0], start + bad[0] * hop, min(start + bad[0] * hop + duration, end)], spec=spec)
+    if k != want:
+        ctx.violate("count", "count:many_windows", observed=k, expected=want, spec=spec)
+
+
 def replay(ctx, w):
     install()
     s = w["spec"]
     ctx.case("replay", s)
+    if s.get("kind") == "many_windows":
+        judge_many_windows(ctx, s["start"], s["n_windows"], s["duration"], s["hop"], s["inc"])
+        return
     judge(ctx, s["start"], s["end"], s["duration"], s["hop"], s["inc"], ids=True)
